@@ -91,6 +91,17 @@ def gen_long_runs():
     return cases
 
 
+def gen_zero_answers():
+    """the wrapped sink accepts but answers Ok(0) (NopMetricSink does; the trait's documentation allows it): that is
+    not a failure - the handler must stay silent, the counters and the delivery order are as for Ok(len)"""
+    cases = []
+    for cap in ("1", "3", "u"):
+        for handler in ("0", "1", "2", "3"):
+            cases.append("Q %s %s E0,Rz,S,E0,E0,Rz,Re5,S,E0,Rz,Rp,E0,Rz,S,D0" % (cap, handler))
+            cases.append("Q %s %s E0,Rz,E0,Rz,E0,Rz,S,C0,D0,E1,Rz,D1" % (cap, handler))
+    return cases
+
+
 def gen_payloads():
     """every payload shape (empty string, 100 kB, non-ASCII with newlines, bare number) through every capacity, on the
     original handle and on a clone, sampled before and after delivery"""
@@ -282,6 +293,7 @@ def as_plain_drop(case):
         t[2] = {"2": "1", "3": "0"}.get(t[2], t[2])        # how the sink was constructed: with or without a handler
         t[3] = re.sub(r"U(\d+)", r"D\1", t[3])
         t[3] = re.sub(r"E(\d+)[elus]", r"E\1", t[3])      # the payload's shape is nothing to the model or the clauses
+        t[3] = re.sub(r"\bRz\b", "Rk", t[3])             # accepted is accepted, whatever count the wrapped sink answers
     return " ".join(t)
 
 
@@ -311,6 +323,10 @@ def judge(case, obs):
         r0 = r.split("!")[0]
         busy = accepted > done                      # the worker holds a metric in the gate
         inchan = max(0, accepted - done - 1)
+        if a[0] == "E" and any(f.isdigit() for f in flags):
+            n = [f for f in flags if f.isdigit()][0]
+            for pid in ("C10", "C08"):
+                bad.append((pid, "action %d: emit returned Ok(%s), which is not the byte length of the metric it accepted" % (i, n)))
         if "stats" in flags:
             bad.append(("C14", "action %d: MetricSink::stats() read through the queuing sink differs from the wrapped sink's own figures" % i))
         if "slow" in flags:
@@ -330,8 +346,6 @@ def judge(case, obs):
             if r0 != want:
                 bad.append(("C10", "action %d: emit returned %s with %d of %s queued (worker %s), expected %s" % (
                     i, r0, inchan, t[1], "busy" if busy else "waiting", want)))
-                if r0.startswith("k!"):
-                    bad.append(("C08", "action %d: emit returned Ok with a wrong length" % i))
             if r0.startswith("k"):
                 accepted += 1
         elif a[0] == "F":
@@ -419,6 +433,7 @@ def run_queue_check(prop, tier, seed):
     cases += gen_payloads()
     cases += gen_flushes()
     cases += gen_long_runs()
+    cases += gen_zero_answers()
     cases += gen_random(rng, 60000 if thorough else 400, 40)
     soak = gen_soak(rng, 300 if thorough else 12, thorough)
     sched = gen_schedules(8 if thorough else 6, [1, 2, None], rng, 30000 if thorough else 300, 30)
